@@ -83,8 +83,36 @@ def contract_stream(R, g, fails, dis, stats):
             elif o["some_compatible"] and not o["compatible"]:
                 fails.append({"why": f"the resolver chose {o['style']} ({o['method']}) for '{t}', a style that text cannot have: the contract the "
                                      "first-letter / all-upper theorems rest on is broken", "matched": t, "replacement": rep, "line": line})
+    # the one fact the tail theorems assume about coercion::apply_coercion (an oracle of Model/HunkTail.v): once a leading
+    # "__" / "_" is set aside, a container equal to the pattern up to ASCII case yields None
+    for i in range(300 if R.tier == "quick" else 20000):
+        a = g.words(1, 3)
+        S = r.choice(gen.STYLES14)
+        old = gen.render(a, S)
+        cont = r.choice(["", "_", "__"]) + r.choice([old, old.upper(), old.lower(), gen.render(a, r.choice(gen.STYLES14)), old + "_x", "my_" + old])
+        new = gen.render(g.words(1, 3), r.choice(gen.STYLES14))
+        stripped = cont[2:] if cont.startswith("__") else cont[1:] if cont.startswith("_") else cont
+        res = H.ask({"op": "apply_coercion", "container": core.hx(cont), "old": core.hx(old), "new": core.hx(new)})
+        stats["coercion_oracle_cases"] = stats.get("coercion_oracle_cases", 0) + 1
+        if stripped.lower() == old.lower():
+            stats["coercion_oracle_premise_held"] = stats.get("coercion_oracle_premise_held", 0) + 1
+            if res.get("ok") != "none":
+                dis.append({"why": "apply_coercion answers Some for a container equal to the pattern: the hypothesis of the hunk-tail "
+                                   "theorems about this oracle no longer holds", "container": cont, "old": old, "new": new, "real": res})
     H.close()
     M.close()
+    # Model/HunkTail.v (the tail of scanner.rs::generate_hunks) against the real scanner, hunk by hunk; oracles answered by the real code
+    env = dict(core.ENV, RN_HARNESS=str(hp), RN_ROCQ=str(core.ROCQ), RN_WORK=str(core.BUILD / "hunktail_work"))
+    rc, out, dt = core.sh(["python3", str(core.VERIF / "lib" / "hunktail_difftest.py"), str(R.seed + 77), "150" if R.tier == "quick" else "2500"],
+                          env=env, timeout=3000)
+    m1 = __import__("re").search(r"compared (\d+) real hunks in (\d+) cases", out)
+    m2 = __import__("re").search(r"DISAGREEMENTS: (\d+)", out)
+    stats["hunk_tail_model"] = {"hunks_compared": int(m1.group(1)) if m1 else 0, "cases": int(m1.group(2)) if m1 else 0,
+                                "disagreements": int(m2.group(1)) if m2 else None}
+    if not m2 or not m1 or int(m1.group(1)) == 0:
+        dis.append({"why": "the hunk-tail differential run did not complete", "log": out[-1500:]})
+    elif int(m2.group(1)) > 0:
+        dis.append({"why": "Model/HunkTail.v differs from scanner.rs::generate_hunks", "log": out[out.find("DISAGREEMENTS"):][:2500]})
 
 
 def run(R):
